@@ -52,7 +52,7 @@ def run(tier, seed, work, replay):
                       env={"GORACE": "log_path=%s exitcode=0 halt_on_error=0" % rlog}, timeout=1800)
     except E.RuntimeCrash as c:
         # "fatal error: concurrent map ..." - the runtime aborted the process, which is what the property warns of
-        fr = [(os.path.basename(f), ln) for f, ln in c.frames if f.startswith("cmd/keymasterd/")]
+        fr = [(f, ln) for f, ln in c.frames]
         if not fr:
             raise E.Inconclusive("the race soak crashed (%s) without a keymaster frame:\n%s" % (c.kind, c.dump))
         races.append(sorted(set(fr))[:6])
@@ -60,11 +60,20 @@ def run(tier, seed, work, replay):
     for f in _g.glob(rlog + ".*"):
         for rep in open(f).read().split("=================="):
             if "DATA RACE" in rep:
-                frames = _r.findall(_r.escape(E.REPO) + r"/cmd/keymasterd/([A-Za-z0-9_]+\.go):(\d+)", rep)
-                frames = [x for x in frames if not x[0].startswith("zz_verif")]
+                frames = _r.findall(_r.escape(E.REPO) + r"/((?:cmd|lib|keymasterd|eventmon)/[A-Za-z0-9_/]+\.go):(\d+)", rep)
+                frames = [x for x in frames if "zz_verif" not in x[0]]
                 if frames:
                     races.append(sorted(set(frames))[:6])
     cov["race_reports_with_keymaster_frames"] = len(races)
+    # the soak's concurrent-unseal rounds are judged by the monitor too
+    rpath = work.path("race-events.ndjson")
+    if os.path.exists(rpath) and "runtime_abort" not in cov:
+        revs = E.read_ndjson(rpath)
+        for d in E.monitor(work, "Trace_KMConc", "Trace_KMConc.cfg", rpath, cov, tag="Trace_KMConc-soak"):
+            ev = revs[d["line"] - 1]
+            sg = {"action": ev["ev"], "guards": d["guards"]}
+            if res.classify(sg, ev, known) == "violation":
+                res.sample({"deviation": d, "event": ev})
     evs, devs = execute(cpath, "all")
     tokens_prof = {"u2f": {"present": True, "enabled": True, "name": 0}, "totp": {"present": True, "enabled": True, "name": 0},
                    "pending": False, "regchal": False, "wchal": False, "totpUsed": False, "botp": 0}
